@@ -46,6 +46,16 @@ NormOp(o) ==
     ELSE IF o.op = "seek1" THEN [op |-> "seek", a |-> o.a, n |-> 0]
     ELSE o
 
+(* a multi-format read  f:read(fmt1, fmt2, ..)  is the operation "readm" with
+   the extra field fs = <<fmt, ..>>, fmt = <<"c", n>> (count) | <<"l", 0>>
+   ("*l") | <<"n", 0>> ("*n") | <<"a", 0>> ("*a"); FmtOp is the single read a
+   format stands for *)
+FmtOp(f) ==
+    CASE f[1] = "c" -> [op |-> "read", a |-> "", n |-> f[2]]
+      [] f[1] = "l" -> [op |-> "readline", a |-> "", n |-> 0]
+      [] f[1] = "n" -> [op |-> "readnum", a |-> "", n |-> 0]
+      [] f[1] = "a" -> [op |-> "readall", a |-> "", n |-> 0]
+
 (* ---- open modes (Lua 5.1 io.open / ISO C fopen) ------------------------ *)
 AllModes == {"r", "rb", "w", "wb", "a", "ab", "r+", "rb+", "w+", "wb+", "a+", "ab+"}
 (* "tmp" = io.tmpfile(): an update handle on a fresh, empty, anonymous file;            *)
